@@ -257,6 +257,45 @@ pub fn run(ctx: &Ctx) -> i32 {
         });
     }
 
+
+    // parents that are image or tilemap layers (the parent is the nearest preceding layer of a smaller level, whatever its type)
+    let maxg = if thorough { 6 } else { 5 };
+    for n in 2..=maxg {
+        let fam = format!("forest-parent-kinds-n{}", n);
+        if !ctx.wants_family(&fam) {
+            continue;
+        }
+        let fs = forests(n);
+        ctx.family(&fam, fs.len() as u64 * (1u64 << n) * 2, &format!("all {} forests of {} layers x all visible-flag assignments, with every inner node an IMAGE layer (kind 0) or alternately a tilemap / image layer (kind 1) instead of a group; inner nodes hold no cels", fs.len(), n), true);
+        fs.par_iter().for_each(|lv| {
+            for vis in 0..(1u32 << n) {
+                for kind in 0..2u8 {
+                    let case = || format!("{:?} vis={:0w$b} inner-kind={}", lv, vis, kind, w = n);
+                    if !ctx.wants(&fam, &case) {
+                        continue;
+                    }
+                    let mut f = forest_sprite(lv, vis);
+                    f.frames[0].chunks.insert(0, Chunk::new(Body::Tileset(tileset(0, 2, 1, 1, tile_pixels(&Fmt::Rgba, 2, 1, 1, 2, (0, 0)), "t"))));
+                    let mut k = 0;
+                    for ch in f.frames[0].chunks.iter_mut() {
+                        if let Body::Layer(l) = &mut ch.body {
+                            if l.ty == 1 {
+                                if kind == 1 && k % 2 == 0 {
+                                    l.ty = 2;
+                                    l.tileset = 0;
+                                } else {
+                                    l.ty = 0;
+                                }
+                                k += 1;
+                            }
+                        }
+                    }
+                    conform(ctx, &fam, &case, &f, &want);
+                }
+            }
+        });
+    }
+
     // wide groups: a parent that lies more than 255 / 256 layers before its child
     if ctx.wants_family("wide-groups") {
         let mut cases: Vec<(usize, u32, usize)> = Vec::new();
